@@ -18,6 +18,7 @@ import (
 	"fmt"
 	"time"
 
+	"github.com/buildbarn/bb-storage/pkg/blobstore/buffer"
 	"github.com/buildbarn/bb-storage/pkg/blobstore/local"
 	"github.com/buildbarn/bb-storage/pkg/digest"
 	"github.com/buildbarn/bb-storage/pkg/verifshim/vsched"
@@ -347,6 +348,107 @@ func concBody(g lstore.Geometry) func() {
 	}
 }
 
+// heldBody: T aged into an old block; every sequence over {block-sized upload, obtain the buffer of Get(T)
+// without consuming it, consume a held buffer, Get(T), FindMissing(T)}. A Get whose buffer is consumed late
+// publishes its refresh copy late: two overlapping refreshes of the same object, and rotations between
+// obtaining and consuming, are reached without any concurrency. A Get counts as completed when its buffer
+// has been consumed successfully.
+func heldBody(g lstore.Geometry, depth int, nops int) func() {
+	return func() {
+		med := lstore.NewMedia(g)
+		s := lstore.Open(g, med)
+		in := inst(g)
+		T := mk(g, "T", 0, 3)
+		if err := s.PutOK(T.Digest, T.Content); err != nil {
+			vsched.HarnessFail("prefill: %v", err)
+		}
+		fill := 0
+		filler := func() error {
+			fill++
+			o := mk(g, "F", 1000+fill, 8)
+			return s.PutOK(o.Digest, o.Content)
+		}
+		_ = in
+		for !needsRefresh(s, T) {
+			if err := filler(); err != nil || fill > 12 || !present(s, T.Digest) {
+				vsched.HarnessFail("could not place T in an old block (geometry %s): %v", g, err)
+			}
+		}
+		// leave room in the newest block, so that the first refresh copy does not itself rotate
+		if g.Old >= 2 {
+			half := mk(g, "S", 3000, 4)
+			if err := s.PutOK(half.Digest, half.Content); err != nil || !present(s, T.Digest) {
+				vsched.HarnessFail("prefill half-block filler: %v", err)
+			}
+		}
+		tr := &tracker{}
+		type heldGet struct {
+			b       buffer.Buffer
+			issued  int  // blocks allocated when Get returned the buffer
+			refresh bool // T lay in an old block then: this Get refreshes
+		}
+		var held []heldGet
+		touch := func(at int) {
+			// a guarantee runs from the moment the operation was issued (for a promptly consumed Get that is
+			// also its completion): a buffer consumed late cannot extend it, see DESIGN 5.18
+			if !tr.touched || at > tr.at {
+				tr.touched, tr.at = true, at
+			}
+		}
+		for i := 0; i < depth; i++ {
+			switch vsched.ChooseFree("choice", nops) {
+			case 0:
+				err := filler()
+				vsched.Obs("F=%s", status.Code(err))
+			case 1:
+				if len(held) < 2 {
+					nr := needsRefresh(s, T)
+					held = append(held, heldGet{s.BA.Get(context.Background(), T.Digest), s.Alloc.NewBlocks, nr})
+					vsched.Obs("hold")
+				}
+			case 2:
+				if len(held) > 0 {
+					h := held[0]
+					held = held[1:]
+					d, err := h.b.ToByteSlice(100)
+					vsched.Obs("consume=%s", status.Code(err))
+					if err == nil {
+						if !bytes.Equal(d, T.Content) {
+							failf("wrong-bytes", "held Get(T) = %q", d)
+						}
+						if h.refresh && !present(s, T.Digest) && s.IndexDiscards() == 0 {
+							failf("get-completed-without-refresh", "Get(T) was issued while T lay in an old block (so it had to refresh T) and completed successfully after %d further allocations, yet T is not resolvable right after it completed: the refresh was not published and the failure was not reported", s.Alloc.NewBlocks-h.issued)
+						}
+						touch(h.issued)
+					}
+				}
+			case 3:
+				d, err := s.Get(T.Digest)
+				vsched.Obs("G=%s", status.Code(err))
+				if err == nil {
+					if !bytes.Equal(d, T.Content) {
+						failf("wrong-bytes", "Get(T) = %q", d)
+					}
+					touch(s.Alloc.NewBlocks)
+				}
+			case 4:
+				miss, err := s.FindMissing(T.Digest)
+				vsched.Obs("FM=%s:%v", status.Code(err), miss[T.Digest.String()])
+				if err == nil && !miss[T.Digest.String()] {
+					touch(s.Alloc.NewBlocks)
+				}
+			}
+			tr.check(s, T, fmt.Sprintf("after operation %d", i))
+		}
+		for _, h := range held {
+			h.b.Discard()
+		}
+		if s.RBF.Opened != s.RBF.Closed {
+			failf("reader-leak", "%d readers opened, %d closed", s.RBF.Opened, s.RBF.Closed)
+		}
+	}
+}
+
 // concTwoBody: two different objects X and Y, both aged into old blocks, touched concurrently by two callers
 // (the refresh of one is in progress while the other caller arrives); each must then survive old+1 further
 // allocations counted from the completion of its own touch.
@@ -491,6 +593,18 @@ func main() {
 		}
 	}
 	mc.GroupBudget["two-names"] = time.Duration(ev.Pick(r, 150, 1200)) * time.Second
+	dh := ev.Pick(r, 7, 8)
+	mc.GroupSpace["seq-held"] = fmt.Sprintf("T aged into the newest old block, half a block of room in the newest block; (old,current,new) in {1,2,3}x{1}x{1,2}, flat and hierarchical: all %d^%d sequences over {block-sized upload, obtain Get(T)'s buffer without consuming it (at most two held), consume the oldest held buffer, Get(T)%s}; a guarantee runs from the moment the operation was issued; a Get issued while T lay in an old block that completes successfully must leave T resolvable", ev.Pick(r, 4, 5), dh, ev.Pick(r, "", ", FindMissing(T)"))
+	for _, hier := range []bool{false, true} {
+		for o := 1; o <= 3; o++ {
+			for n := 1; n <= 2; n++ {
+				g := base
+				g.Old, g.Current, g.New, g.Hierarchical, g.Spare = o, 1, n, hier, 3
+				scs = append(scs, mc.Scenario{Name: fmt.Sprintf("seq-held/h%v-o%dc1n%d", hier, o, n), Group: "seq-held", Bound: 0, Body: heldBody(g, dh, ev.Pick(r, 4, 5))})
+			}
+		}
+	}
+	mc.GroupBudget["seq-held"] = time.Duration(ev.Pick(r, 150, 1200)) * time.Second
 	mc.GroupSpace["seq-persistent"] = fmt.Sprintf("persistent block list (epochs, deferred release until the state file is rewritten), immutable policy: (old,current,new) in {1,2}x{1,2}x{2,3} x {flat,hierarchical}: all 6^%d sequences over the five operations plus one step of the syncer loops", depth)
 	for _, hier := range []bool{false, true} {
 		for o := 1; o <= 2; o++ {
